@@ -1007,6 +1007,19 @@ func propC07(re *rootEnv) func(*rapid.T) {
 						plain = append(plain, e.Attr)
 					}
 				}
+				// a known, non-null branch of a field-less message written as the zero value `types.Object{}`
+				// (no Attrs, no AttrTypes): there is nothing to read from it, it still selects its branch
+				for _, e := range re.view.Entries {
+					if e.Placeholder || e.F.Oneof == "" || e.Child == nil || len(e.Child.Msg.Fields) != 0 {
+						continue
+					}
+					if o, ok := X.Attrs[e.Attr].(types.Object); ok && !o.Null && !o.Unknown && coin(t, 1, 2, fmt.Sprintf("zeroobj%d/%s", i, e.Attr)) {
+						X = cloneObject(X)
+						X.Attrs[e.Attr] = types.Object{}
+						h.add("ZeroObject", "branch "+e.Attr+" is types.Object{}")
+						st.probe("field-less-branch-as-zero-object")
+					}
+				}
 				if len(plain) > 0 && coin(t, 1, 6, fmt.Sprintf("damaged%d", i)) {
 					gone := plain[rapid.IntRange(0, len(plain)-1).Draw(t, fmt.Sprintf("gone%d", i))]
 					Xd := cloneObject(X)
